@@ -173,6 +173,11 @@ func recurseArrays(data []byte, buf *rjson.Buffer) (int, error) {
 	}), buf)
 }
 
+// exclusiveTemplates write into a fixed region of a shared arena (their own destination): the
+// property's precondition (no shared destination) holds between such a template and every OTHER
+// template, not between two instances of itself, so it is never run concurrently with itself.
+var exclusiveTemplates = map[string]bool{"writer into the region behind those windows": true}
+
 type concTemplate struct {
 	name string
 	run  func() string
@@ -716,7 +721,11 @@ func c18RaceChild() {
 			go func(g int) {
 				defer wg.Done()
 				for k := 0; k < len(ts); k++ {
-					ts[(k*5+g*3+round)%len(ts)].run()
+					t := ts[(k*5+g*3+round)%len(ts)]
+					if exclusiveTemplates[t.name] && g != 0 {
+						continue // writes to a fixed region: two instances of it would share a destination
+					}
+					t.run()
 				}
 			}(g)
 		}
@@ -727,6 +736,9 @@ func c18RaceChild() {
 	// isolated pairs keep the accesses unordered)
 	for i := range ts {
 		for j := i; j < len(ts); j++ {
+			if i == j && exclusiveTemplates[ts[i].name] {
+				continue
+			}
 			restoreInputs()
 			var w2 sync.WaitGroup
 			w2.Add(2)
